@@ -256,6 +256,19 @@ pub fn replay(check: &str, input: &Value, stats: &mut Stats) -> Option<Vec<Failu
             let p = random_project(&mut tape, false, &mut avoided);
             Some(check_project(&p, stats))
         }
+        "c02.files" => {
+            // explicit sources: [{path, content}], mode
+            let files: Vec<(String, String)> = input["files"].as_array()?.iter().filter_map(|f| Some((f["path"].as_str()?.to_string(), f["content"].as_str()?.to_string()))).collect();
+            let cfg = crate::tool::Cfg::mode(input["mode"].as_str().unwrap_or("none"));
+            stats.eval();
+            let out = generate(&files, &cfg);
+            let case = json!({"files": input["files"], "mode": cfg.mode});
+            let returned = match &out.result {
+                Ok(r) => r.clone(),
+                Err(e) => return Some(vec![Failure::new("tool_error").observed(e.clone()).expected("generation succeeds").case(case)]),
+            };
+            Some(check_modules(&out.files, &returned, &[format!("mode={}", cfg.mode)], &case, stats))
+        }
         "c02.grid" => Some(grid_case(input["wrap"].as_str()?, input["leaf"].as_str()?, input["mode"].as_str()?, stats)),
         _ => None,
     }
